@@ -270,6 +270,32 @@ func (g *G) Fail(ty m.Ty, d int) *m.Node {
 }
 
 // Expr generates an expression of static type ty and depth at most d.
+// zeroCallFirst: an expression of type ty that starts (in evaluation order) with a registered
+// operator called without operands; nil for list types.
+func (g *G) zeroCallFirst(ty m.Ty, d int) *m.Node {
+	zero := m.Op("c_sum")
+	switch ty {
+	case m.TInt:
+		if rapid.Bool().Draw(g.t, "zc_alone") {
+			return zero
+		}
+		return m.Op(g.alias("+", "add", "-", "*"), zero, g.Expr(m.TInt, d))
+	case m.TStr:
+		return m.Op("c_cat")
+	case m.TBool:
+		first := m.Op(g.alias("=", "!=", "<", ">="), zero, g.Leaf(m.TInt))
+		switch rapid.IntRange(0, 2).Draw(g.t, "zc_bool") {
+		case 0:
+			return first
+		case 1:
+			return m.Op(g.alias("or", "||", "|"), first, g.Expr(m.TBool, d))
+		default:
+			return m.Op(g.alias("and", "&&", "&"), first, g.Expr(m.TBool, d))
+		}
+	}
+	return nil
+}
+
 func (g *G) Expr(ty m.Ty, d int) *m.Node {
 	g.budget--
 	if d <= 0 || g.budget <= 0 {
@@ -294,7 +320,18 @@ func (g *G) Expr(ty m.Ty, d int) *m.Node {
 	case 0:
 		return g.Leaf(ty)
 	case 2:
-		return m.If(g.Expr(m.TBool, d-1), g.Expr(ty, d-1), g.Expr(ty, d-1))
+		c, a, b := g.Expr(m.TBool, d-1), g.Expr(ty, d-1), g.Expr(ty, d-1)
+		if g.Custom && rapid.IntRange(0, 5).Draw(g.t, "zerocallfirst") == 0 {
+			// a branch whose first node in evaluation order is a call without operands
+			if z := g.zeroCallFirst(ty, d-1); z != nil {
+				if rapid.IntRange(0, 2).Draw(g.t, "zerocallbranch") == 0 {
+					a = z
+				} else {
+					b = z
+				}
+			}
+		}
+		return m.If(c, a, b)
 	case 3:
 		return m.Op("c_id", g.Expr(ty, d-1))
 	case 4:
@@ -424,13 +461,42 @@ func (g *G) Expr(ty m.Ty, d int) *m.Node {
 // fills in the values of named constants.
 func UniverseFor(t *rapid.T, tree *m.Node, collide bool) *Universe {
 	u := &Universe{}
+	// the tree's own integer literals: a quarter of the integer variables get a value next to one of
+	// them (l, l±1: the boundary of a comparison with l) or as far from it as int64 goes (MaxInt64-l+1,
+	// MinInt64+l-1 ...: where x+l / x-l wrap around)
+	var lits []int64
+	tree.Walk(func(x *m.Node) {
+		if l, ok := x.Val.(int64); ok && x.Kind == m.KConst && x.Name == "" && len(lits) < 24 {
+			lits = append(lits, l)
+		}
+	})
+	// variables that are added to / subtracted from a literal k: half of them sit where x±k wraps around
+	offs := map[string][]int64{}
+	tree.Walk(func(x *m.Node) {
+		if x.Kind != m.KOp || len(x.Kids) != 2 || !(x.Name == "+" || x.Name == "add" || x.Name == "-" || x.Name == "sub") {
+			return
+		}
+		for i := 0; i < 2; i++ {
+			if k, ok := x.Kids[1-i].Val.(int64); ok && x.Kids[i].Kind == m.KVar && x.Kids[1-i].Kind == m.KConst && len(offs[x.Kids[i].Name]) < 8 {
+				offs[x.Kids[i].Name] = append(offs[x.Kids[i].Name], k)
+			}
+		}
+	})
 	for _, name := range tree.VarNames() {
 		if b, ok := badVars[name]; ok {
 			u.Vars = append(u.Vars, VarDecl{Name: name, Ty: b.Ty, Mode: b.Mode})
 			continue
 		}
 		ty := tyOfVar(name)
-		u.Vars = append(u.Vars, VarDecl{Name: name, Ty: ty, Val: m.V{X: genVal(t, ty, "v_"+name)}})
+		val := genVal(t, ty, "v_"+name)
+		if ks := offs[name]; ty == m.TInt && len(ks) > 0 && rapid.Bool().Draw(t, "wrap_"+name) {
+			k := rapid.SampledFrom(ks).Draw(t, "wrapoff_"+name)
+			val = []int64{math.MaxInt64 - k + 1, math.MaxInt64 - k, math.MaxInt64, math.MinInt64 + k - 1, math.MinInt64 + k, math.MinInt64}[rapid.IntRange(0, 5).Draw(t, "wrapform_"+name)]
+		} else if ty == m.TInt && len(lits) > 0 && rapid.IntRange(0, 3).Draw(t, "near_"+name) == 0 {
+			l := rapid.SampledFrom(lits).Draw(t, "nearlit_"+name)
+			val = []int64{l, l - 1, l + 1, math.MaxInt64 - l + 1, math.MaxInt64 - l, math.MinInt64 + l - 1, math.MinInt64 + l, -l}[rapid.IntRange(0, 7).Draw(t, "nearform_"+name)]
+		}
+		u.Vars = append(u.Vars, VarDecl{Name: name, Ty: ty, Val: m.V{X: val}})
 	}
 	cn := map[string]bool{}
 	tree.Walk(func(x *m.Node) {
@@ -766,9 +832,41 @@ func (g *G) idiom(d int, nest bool) *m.Node {
 	sub := func() *m.Node { return g.Expr(m.TBool, d-1) }
 	which := 18
 	if !nest {
-		which = rapid.IntRange(0, 17).Draw(g.t, "idiom")
+		which = rapid.IntRange(0, 22).Draw(g.t, "idiom")
+		if which >= 20 {
+			which = 19 // (the offset comparison has four times the weight of the others)
+		} else if which >= 18 {
+			which++ // (18 is the nest)
+		}
 	}
 	switch which {
+	case 19:
+		// a comparison of "variable plus/minus a constant" with a constant - the shape an algebraic
+		// rewrite would move the offset out of, although x+k wraps around near the ends of int64
+		k := m.Const(rapid.SampledFrom([]int64{1, 1, 2, 3, 10, 1 << 32, math.MaxInt64, -1}).Draw(g.t, "idiom_off"))
+		var a *m.Node
+		switch rapid.IntRange(0, 2).Draw(g.t, "idiom_offshape") {
+		case 0:
+			a = m.Op(g.alias("+", "add"), x, k)
+		case 1:
+			a = m.Op(g.alias("-", "sub"), x, k)
+		default:
+			a = m.Op(g.alias("+", "add"), k, x)
+		}
+		c := m.Const(rapid.SampledFrom([]int64{5, 0, -1, 100, math.MaxInt64, math.MinInt64, 4}).Draw(g.t, "idiom_offc"))
+		cmp := g.alias("<", "<=", ">", ">=", "lt", "ge", "=", "!=")
+		if rapid.Bool().Draw(g.t, "idiom_offside") {
+			return m.Op(cmp, a, c)
+		}
+		return m.Op(cmp, c, a)
+	case 20:
+		// "no limit" written as a comparison with an end of the int64 range, on either side
+		ext := m.Const(rapid.SampledFrom([]int64{math.MaxInt64, math.MinInt64, math.MaxInt64 - 1, math.MinInt64 + 1}).Draw(g.t, "idiom_ext"))
+		cmp := g.alias("<", "<=", ">", ">=", "lt", "le", "gt", "ge", "=", "!=")
+		if rapid.Bool().Draw(g.t, "idiom_extside") {
+			return m.Op(cmp, ext, x)
+		}
+		return m.Op(cmp, x, ext)
 	case 18:
 		// a nest that ReduceNesting merges: every operand of the outer operator is a leaf or a group of
 		// the same kind; the groups hold arbitrary operands, and one of them is repeated in another group
